@@ -18,6 +18,14 @@ package hashprefix
 //@   callsite github.com/AdguardTeam/golibs/stringutil.WriteToBuilder(b, strs) requires forall k int :: 0 <= k && k < len(strs) ==> strs[k] == "." || strs[k] == c.txtSuffix || hexOut[strs[k]]
 //@   ghost at return: lastQuestion = q
 
+// The cache takes whole items: an item holds every full hash known for a 2-byte prefix, so it has no fixed size - a
+// per-element size limit would silently drop a positive item (the cache refuses it without an error) and the negative
+// pass of storeInCache would then store "no hashes" for the same prefix.
+//@ func New(conf *Config) (c *Checker)
+//@   property C19
+//@   callsite github.com/AdguardTeam/golibs/cache.New(cc) requires no-per-element-limit: cc.MaxElementSize == 0 && cc.MaxSize == conf.CacheSize
+//@   modifies *
+
 // The request sent to the lookup service asks for the TXT record of exactly the name built by getQuestion.
 //@ func (c *Checker) Check(host string) (ok bool, err error)
 //@   property C19
@@ -66,3 +74,10 @@ package hashprefix
 //@   loop 1 complete
 
 //@ sweep C19 (github.com/AdguardTeam/dnsproxy/upstream.Upstream).Exchange
+
+// Whatever builds text in this package does it through stringutil.WriteToBuilder (whose arguments are under the clause
+// above) and hex-encodes nothing but 2-byte prefixes: any other way of writing into a builder, or of hex-encoding, is an
+// uncovered site.
+//@ package-callsite encoding/hex.AppendEncode(dst, src) requires two-byte-prefix-only: len(src) == 2
+//@ package-callsite encoding/hex.Encode(dst, src) requires two-byte-prefix-only: len(src) == 2
+//@ sweep C19 (*strings.Builder).Write, (*strings.Builder).WriteString, (*strings.Builder).WriteByte, (*strings.Builder).WriteRune, encoding/hex.AppendEncode, encoding/hex.Encode
